@@ -949,7 +949,10 @@ def o_C15(tr: Trace) -> Fails:
             if ind[0] == "1" and sent < eofs:
                 f.add("C15:enabled-eofsent-missing", {"eof_pdus": eofs, "indications": sent})
             if ind[0] == "1" and sent > eofs + sum(1 for e in evs if e.op == "reset") + (tr.final[h].rdy if tr.final[h] else 0) + 64 * 0 \
-                    and not any(e.op in ("reset",) for e in evs) and not any(e.flts for e in evs):
+                    and not any(e.op in ("reset",) for e in evs) and not any(e.flts for e in evs) \
+                    and not any(e.op == "put" and e.prev is not None and e.prev.ok and e.prev.rdy > 0 for e in evs):
+                # (a put request accepted while PDUs are still queued zeroes the packets-ready counter:
+                # the EOF PDU announced before it is then neither retrieved nor counted as pending)
                 f.add("C15:eofsent-without-eof-pdu", {"eof_pdus": eofs, "indications": sent})
         # finished indication parameters == Finished PDU of the same completion (destination)
         if tr.kinds[h] == "dst":
